@@ -155,4 +155,8 @@ func c13SearchM(W, L, Q, fixedMode int) {
 func H_c13_search_q()  { c13Search(2, 2, 2) }
 func H_c13_pattern_t() { c13SearchM(3, 3, 3, 0) }
 func H_c13_anagram_t() { c13SearchM(2, 3, 3, 1) }
-func H_c13_both_t()    { c13SearchM(2, 2, 3, 2) }
+
+// one word of length <= 3 against an anagram of length <= 3: reaches repeated letters
+// ("aab", "aa?") that the two-letter quick bound cannot
+func H_c13_anagram3_q() { c13SearchM(1, 3, 3, 1) }
+func H_c13_both_t()     { c13SearchM(2, 2, 3, 2) }
